@@ -125,6 +125,24 @@ def _task(args):
                         st["binding"] += 1
                         if g2 != want and g2 is not None:
                             vios.append(mkv(pgn, p, nbytes, g2, want, f"public path through {ename} (message.id)"))
+    # payloads that carry a definition's match values but are rejected by its own range checks (reserved codes, values
+    # below the range): the outcome may be an error, never another definition
+    for di, d in enumerate(ds):
+        if di % nparts != part or not d.fixed:
+            continue
+        base = apply(0, [(f.offset, f.bits, f.match) for f in d.match_fields])
+        for f in d.fields:
+            if f.match is not None or f.type not in refdb.NUMERIC or f.bits is None or f.bits < 4 or f.offset is None:
+                continue
+            for raw in (f.sentinel() - 1, f.sentinel() - 2, (1 << (f.bits - 1)) if f.signed else None):
+                if raw is None:
+                    continue
+                p = apply(base, [(f.offset, f.bits, raw)])
+                got = observe_public(dec, pgn, p, nbytes)
+                st["binding"] += 1
+                want = expect(p)
+                if isinstance(got, str) and got != want:
+                    vios.append(mkv(pgn, p, nbytes, got, want, f"public path (message.id), field {f.id} at a raw its definition rejects or reserves"))
     saved = patch(pgn, ds)
     via = "recorders around the per-definition functions"
     try:
